@@ -2,13 +2,16 @@ package internal_planner
 
 import (
 	"github.com/go-faster/city"
+	"strconv"
 	"unsafe"
 )
 
 func fingerprint(labels map[string]string) uint64 {
 	descr := [3]uint64{0, 0, 1}
 	for k, v := range labels {
-		a := k + v
+		// the length prefix makes the encoding of (name, value) injective: {"ab":"c"} and {"a":"bc"}
+		// no longer hash the same bytes
+		a := strconv.Itoa(len(k)) + ":" + k + v
 		descr[0] += city.CH64([]byte(a))
 		descr[1] ^= city.CH64([]byte(a))
 		descr[2] *= 1779033703 + 2*city.CH64([]byte(a))
